@@ -50,6 +50,8 @@ pub enum HStep {
     /// parameters go through a self-signing and come back as `cert.params().clone()`), then
     /// the remaining edits applied in place
     ObserveTwin { obs: usize, split: usize },
+    /// the observed call with a *clone* of the shared issuer certificate in the issuer's place
+    ObserveViaClone(usize),
     Noise(Noise),
 }
 
@@ -129,6 +131,9 @@ impl Engine for PurityHist {
         for (i, op) in observed.iter().enumerate() {
             for _ in 0..r.range(3, 4) {
                 history.push(HStep::Observe(i));
+            }
+            if issuer_of(op).is_some() && r.chance(1, 2) {
+                history.push(HStep::ObserveViaClone(i));
             }
             if let Op::SelfSign { recipe, .. } | Op::Issue { recipe, .. } | Op::Csr { recipe, .. } = op {
                 if r.chance(2, 3) {
@@ -239,6 +244,29 @@ impl Engine for PurityHist {
                                 o.violate(&c, format!("step {step} observe[{i}] {}: {d}", op.kind()));
                                 break;
                             }
+                        }
+                    }
+                }
+                HStep::ObserveViaClone(i) => {
+                    let Some(op) = t.observed.get(*i) else { continue };
+                    let Some(k) = issuer_of(op).filter(|k| *k < w.issuers.len()) else { continue };
+                    // put a clone in the issuer's place for this one call, then put the original back
+                    let clone = w.issuers[k].cert.clone();
+                    let original = std::mem::replace(&mut w.issuers[k].cert, clone);
+                    let r = w.exec_ro(op).0;
+                    w.issuers[k].cert = original;
+                    let now = Observed::of(&w, op, &r);
+                    o.count("observations_via_cloned_issuer", 1);
+                    o.ev(format!("{step} via-clone[{i}] {} {}", op.kind(), now.tag()));
+                    let want = match (&reference[*i], pristine.get(*i)) {
+                        (Some(f), _) => Some(f.clone()),
+                        (None, Some(Some(p))) => Some(p.clone()),
+                        _ => None,
+                    };
+                    if let Some(want) = want {
+                        if let Err((_, d)) = want.same_as(&now) {
+                            o.violate("c15-clone-of-issuer-differs", format!("step {step} observe[{i}] {} with a clone of the issuer certificate: {d}", op.kind()));
+                            break;
                         }
                     }
                 }
@@ -551,6 +579,7 @@ fn hstep_tag(h: &HStep) -> String {
     match h {
         HStep::Observe(i) => format!("observe[{i}]"),
         HStep::ObserveTwin { obs, split } => format!("twin[{obs}] split={split}"),
+        HStep::ObserveViaClone(i) => format!("via-clone[{i}]"),
         HStep::Noise(n) => format!("noise {}", noise_kind(n)),
     }
 }
